@@ -679,6 +679,13 @@ impl Game {
         if self.is_endgame() {
             self.piece_scores[PieceType::King as usize].set(&scores::KING_SCORES_END);
             self.phase = GamePhase::Endgame;
+
+            // The kings' cached contributions were computed with the previous king table,
+            // so they must be recomputed, otherwise the score drifts on the next king move
+            for player in [Player::White, Player::Black] {
+                let position = self.get_king_position(player);
+                self.set_position(position, self.get_position(position));
+            }
         }
     }
 
